@@ -12,7 +12,7 @@ PROP = dict(
          'distinct by hash of the case x backend',
     floor=dict(quick=800, thorough=6000),
     parallel=4,
-    confirm_replays=6,
+    confirm_replays=12,
     assumptions=TRUST + ['"eventually" is decided with a 60 s wall-clock budget per wait; a timeout must reproduce in isolated replays to count',
                          'schedules inside the runtimes are sampled'],
     bins=[rc('C02_tasks_tbb', 'harness/C02_tasks.cpp', 'tbb-asan', hang_s=400, quick=dict(scale=1.5)),
